@@ -256,6 +256,8 @@ func c02Run(r *core.Run) {
 		r.Probe("pck_named_leaf_without_sgx_extension")
 	}
 	// 4. Intel's own sample quote is not trusted by a pool that lists only A
+	long := mkOpts(O0, &failGetter{}, nil, w.Times)
+	r.Probe("long_lived_options_across_pools")
 	for _, c := range cases {
 		if !r.Item(c.name) {
 			continue
@@ -281,6 +283,14 @@ func c02Run(r *core.Run) {
 			r.Fault("pki:"+kind, true)
 		}
 		outs, forms := []core.Outcome{o, o2}, []string{"RawTdxQuote", "TdxQuote(message)"}
+		if !strings.HasPrefix(c.name, "now-unset:") {
+			// one long-lived options value serves the whole list of cases; only its pool is exchanged between
+			// calls.  What it trusted for an earlier chain is of no consequence for this one.
+			long.TrustedRoots = c.pool
+			outs = append(outs, verifyRaw(raw, long))
+			forms = append(forms, "RawTdxQuote through a long-lived options value whose TrustedRoots was exchanged after earlier verifications")
+			r.Eval()
+		}
 		if c.expect == world.MustReject && !strings.HasPrefix(c.name, "now-unset:") {
 			// a chain that is not anchored is not anchored with collateral checking on either — while the
 			// (slow) downloads of the trusted hierarchy's genuine collateral succeed
@@ -595,6 +605,6 @@ func init() {
 			return 96
 		},
 		Run:       c02Run,
-		MustProbe: []string{"foreign_chain_not_yet_valid", "lookalike_own_key_ids", "lookalike_same_key_ids", "root_of_trust_configs", "empty_config_uses_embedded_root", "intel_lookalike_root", "foreign_chain_with_unusual_certificate", "pck_named_leaf_without_sgx_extension", "own_roots_with_get_collateral", "rejected_chain_with_collateral_checking_on_slow_network"},
+		MustProbe: []string{"foreign_chain_not_yet_valid", "lookalike_own_key_ids", "lookalike_same_key_ids", "root_of_trust_configs", "empty_config_uses_embedded_root", "intel_lookalike_root", "foreign_chain_with_unusual_certificate", "pck_named_leaf_without_sgx_extension", "own_roots_with_get_collateral", "rejected_chain_with_collateral_checking_on_slow_network", "long_lived_options_across_pools"},
 	})
 }
